@@ -21,7 +21,14 @@ type Content struct {
 	Refs     []string `json:"refs,omitempty"`
 	Members  []string `json:"members,omitempty"`
 	Tmpl     int      `json:"tmpl,omitempty"`
-	Pad      int      `json:"pad,omitempty"` // leading comment / blank lines
+	Pad      int      `json:"pad,omitempty"` // number of lines in front of the first token (comment / blank / white space)
+	// style of those lines: 0 comment first, alternating with blank lines | 1 blank line first, alternating with
+	// comments | 2 blank lines only | 3 white-space-only lines and blank lines | 4 indented comments and blank lines
+	Pre int `json:"pre,omitempty"`
+	// encoding artefact of a file of class good / anon / typeset: "bom" (the text starts with a byte order mark),
+	// "crlf" (every line ends in CR LF).  The lexer takes neither as white space: such a file is malformed at the
+	// line of the mark resp. of the first CR outside a comment (effClass).
+	Enc string `json:"enc,omitempty"`
 	Marker   int      `json:"marker"`        // unique per file; member j of a type set has Marker+1+j
 }
 
@@ -60,6 +67,10 @@ type Case struct {
 	Top  string    `json:"top"`
 	Mods []ModSpec `json:"mods"`
 	Ops  []Op      `json:"ops"`
+	// further generations: after the operations above, the directory of the case is removed and written again
+	// with the layout of Then[0] AT THE SAME PATH, new loaders are created over it IN THE SAME PROCESS and its
+	// operations run; then Then[1] ... (Then of a generation is unused).  A loader answers from the layout it stands on.
+	Then []Case `json:"then,omitempty"`
 }
 
 // Outcome of one operation as observed on the implementation.
@@ -101,6 +112,7 @@ type CaseResult struct {
 	// lower-cased name -> lower-cased Name() of the bound type
 	Shadow map[string]string `json:"shadow,omitempty"`
 	Crash    string        `json:"crash,omitempty"`
+	Then     []CaseResult  `json:"then,omitempty"` // the further generations
 }
 
 // ------------------------------------------------------------------------------------------------
@@ -109,16 +121,69 @@ type CaseResult struct {
 const nMalformed = 7
 const nNoDef = 6
 
-func pad(n int) string {
+const nPre = 5
+
+// preamble: n lines (each ends in exactly one line feed) without a token, in one of nPre styles
+func preamble(style, n int) string {
 	var b strings.Builder
 	for i := 0; i < n; i++ {
-		if i%2 == 0 {
-			fmt.Fprintf(&b, "# comment %d\n", i)
-		} else {
+		odd := i%2 == 1
+		switch style % nPre {
+		case 0:
+			if odd {
+				b.WriteString("\n")
+			} else {
+				fmt.Fprintf(&b, "# comment %d\n", i)
+			}
+		case 1:
+			if odd {
+				fmt.Fprintf(&b, "# comment %d\n", i)
+			} else {
+				b.WriteString("\n")
+			}
+		case 2:
 			b.WriteString("\n")
+		case 3:
+			if odd {
+				b.WriteString("\n")
+			} else {
+				b.WriteString("  \t \n")
+			}
+		default:
+			if odd {
+				fmt.Fprintf(&b, "\t # indented comment %d # twice\n", i)
+			} else {
+				b.WriteString(" \n")
+			}
 		}
 	}
 	return b.String()
+}
+
+// effClass: the content class as the parser sees it (an encoding artefact makes a well-formed text malformed)
+func effClass(c *Content) string {
+	if c.Enc != "" {
+		switch c.Class {
+		case "good", "anon", "typeset":
+			return "malformed"
+		}
+	}
+	return c.Class
+}
+
+// render returns the text of the file.
+func render(c *Content) string {
+	t := renderPlain(c)
+	if effClass(c) == c.Class {
+		return t
+	}
+	switch c.Enc {
+	case "bom":
+		return "\ufeff" + t
+	case "crlf":
+		return strings.ReplaceAll(t, "\n", "\r\n")
+	}
+	panic("unknown encoding artefact " + c.Enc)
 }
 
 func markerType(m int) string { return fmt.Sprintf("Integer[%d,%d]", m, m) }
@@ -130,9 +195,8 @@ func body(c *Content) string {
 	return "Tuple[" + markerType(c.Marker) + ", " + strings.Join(c.Refs, ", ") + "]"
 }
 
-// render returns the text of the file.
-func render(c *Content) string {
-	p := pad(c.Pad)
+func renderPlain(c *Content) string {
+	p := preamble(c.Pre, c.Pad)
 	switch c.Class {
 	case "good":
 		return p + "type " + c.Declared + " = " + body(c) + "\n"
@@ -184,31 +248,83 @@ func render(c *Content) string {
 		case 4:
 			return p + "[1, 2]\n"
 		default:
-			return pad(c.Pad + 1)
+			return preamble(c.Pre, c.Pad+1)
 		}
 	}
 	panic("unknown content class " + c.Class)
 }
 
-// malformedLine is the line the parser must report for a malformed file, by construction of the
-// templates: the line of the first token that cannot continue a type definition.
-func malformedLine(c *Content) int {
+// errPos is the position of the parser's reader in the rendered text when it gives up on a malformed file, by
+// construction of the templates: right after the first token (or character) that cannot continue a type
+// definition.  The reported line is the line of that position in the file.
+func errPos(c *Content) int {
+	text := render(c)
+	if c.Class != "malformed" {
+		switch c.Enc {
+		case "bom":
+			return len("\ufeff")
+		case "crlf":
+			// the first CR that is not part of a comment (no text of these classes holds a '#' or a CR inside a token)
+			i := 0
+			for i < len(text) {
+				switch text[i] {
+				case ' ', '\t', '\n':
+					i++
+					continue
+				case '#':
+					for i < len(text) && text[i] != '\n' {
+						i++
+					}
+					continue
+				}
+				break
+			}
+			return i + strings.Index(text[i:], "\r") + 1
+		}
+		panic("errPos of a well-formed file")
+	}
+	pre := len(preamble(c.Pre, c.Pad))
+	body := text[pre:]
+	at := func(sub string, n int) int {
+		k := strings.Index(body, sub)
+		if k < 0 {
+			panic("template changed: " + sub)
+		}
+		return pre + k + n
+	}
 	switch c.Tmpl % nMalformed {
 	case 0:
-		return c.Pad + 4 // `c` where ',' or '}' is required
+		return at("\n c", 3) // `c` where ',' or '}' is required
 	case 1:
-		return c.Pad + 2 // end of input after the line break
+		return len(text) // end of input after the line break
 	case 2:
-		return c.Pad + 1 // `Integer` where '=' is required
+		return at(" Integer[", 8) // `Integer` where '=' is required
 	case 3:
-		return c.Pad + 1 // the surplus `]`
+		return at("]]", 2) // the surplus `]`
 	case 4:
-		return c.Pad + 3 // `extra` after the complete expression
+		return at("extra", 5) // `extra` after the complete expression
 	case 5:
-		return c.Pad + 6 // the second `,`
+		return at(",\n,", 3) // the second `,`
 	default:
-		return c.Pad + 4 // `}` where '=>' is required
+		return at("\n}", 2) // `}` where '=>' is required
 	}
+}
+
+// malformedLine is the line the parser must report for a malformed file: the line of the file on which the
+// offending token stands = 1 + the number of line feeds in front of errPos.
+func malformedLine(c *Content) int {
+	return 1 + strings.Count(render(c)[:errPos(c)], "\n")
+}
+
+// defLine: the line on which the first token of the file stands (1 when there is none)
+func defLine(c *Content) int {
+	if c.Class == "nodef" {
+		switch c.Tmpl % nNoDef {
+		case 0, 5:
+			return 1
+		}
+	}
+	return c.Pad + 1
 }
 
 func lineCount(text string) int {
